@@ -9,6 +9,7 @@ classify the outcome.
   //@rewrite <label> x<N> s<D>regex<D>replacement<D>    python regex applied to the extracted text; must hit exactly N times
   //@contract                                           following lines go between signature and body
   //@loop <k>                                           following lines go between header and body of the k-th loop (textual order, 0-based)
+  //@loop-after <k>                                     following lines go after the line with the closing brace of the k-th loop
   //@loop-body <k>                                      following lines go right after the opening brace of the k-th loop's body
   //@before <snippet> / //@after <snippet>              following lines go before/after the (unique) body line containing <snippet>
   //@before #<k>/<n> <snippet>                          ... the k-th of exactly n body lines containing <snippet>
@@ -101,6 +102,7 @@ class Extract:
         self.contract = []
         self.loops = {}         # k -> [lines]
         self.loop_bodies = {}   # k -> [lines] inserted right after the opening brace of loop k
+        self.loop_afters = {}   # k -> [lines] inserted after the line holding the closing brace of loop k
         self.before = []        # (snippet, [lines])
         self.after = []
         self.body_start = []
@@ -190,6 +192,9 @@ def parse_vspec(path):
                 ex.noname = True
             elif d.startswith('derive'):
                 ex.derive = tuple(d.split()[1:])
+            elif d.startswith('loop-after '):
+                k = int(d.split()[1])
+                sink = ex.loop_afters.setdefault(k, [])
             elif d.startswith('loop-body '):
                 k = int(d.split()[1])
                 sink = ex.loop_bodies.setdefault(k, [])
@@ -368,6 +373,15 @@ def render_extract(ex, report, vacuity=False):
         if m:
             col += m.end()
         inline[(li, col)] = lines
+    for k, lines in ex.loop_afters.items():
+        if k >= len(loops):
+            raise AnchorLost(f"{fid}: loop {k} not found (function has {len(loops)} loops)")
+        _, brace_off, _ = loops[k]
+        close = match_brace(bmsk, brace_off)
+        li = bmsk.count('\n', 0, close)
+        if bmsk[close + 1:bmsk.find('\n', close) if bmsk.find('\n', close) >= 0 else len(bmsk)].strip():
+            raise AnchorLost(f"{fid}: loop-after {k}: code follows the closing brace on the same line")
+        inserts_after.setdefault(li, []).extend(lines)
     rep['loops'] = len(loops)
     rep['loops_with_invariant'] = len(ex.loops)
     def anchor(snip):
